@@ -248,6 +248,18 @@ def luPublicM (ops : InvOps α) (gt : α → α → Bool) (isOne : α → Bool) 
   let f := luCore ops (s == .blockPiv || s == .block) n (applyPivotM isOne n A P)
   ⟨f.1, f.2, p, P⟩
 
+/-- `internal::count_swaps(A)`: the number of columns at which the static pivot exchanges two entries -/
+def countSwaps (gt : α → α → Bool) (n : Nat) (A : Mat α) : Nat :=
+  (List.range n).foldl (fun (cnt : Nat) j =>
+      let mx := (List.range' j (n - j)).foldl (fun mx i => if gt (A.get i j) (A.get mx j) then i else mx) j
+      if j ≠ mx then cnt + 1 else cnt) 0
+
+/-- `determinant<DetCompType::LU>(A)`: `nswaps = count_swaps(A) % 2 == 0 ? 1 : -1; lu<BlockLUPiv>(A,L,U,p); product(diag(U)) * nswaps` -/
+def detLU (ops : InvOps α) (gt : α → α → Bool) (n : Nat) (A : Mat α) : α :=
+  let r := luPublicV ops gt .blockPiv n A
+  let prod := (List.range n).foldl (fun (acc : α) i => acc * r.U.get i i) 1
+  if countSwaps gt n A % 2 = 0 then prod else 0 - prod
+
 end model
 
 /-! ### executable triangular inverses (what `tinverse` returns over a field)
